@@ -234,6 +234,39 @@ def check_match_loop(repo, rep, tier):
     rep.floor("C02-R2", 500)
 
 
+def check_fast_chunk(repo, rep, tier):
+    rid = "C02-R2f"
+    rep.rule(rid, "fast simulator: abstract execution of the chunk matching function on a two-minute chunk with two resting orders, over the "
+                  "weak orderings of (o1,c1,h1,l1,c2,h2,l2,p,r): at the end of the chunk exactly the orders whose price lies in the chunk's "
+                  "range have filled (none is left unfilled), each once and at its own price")
+    from props import c12
+    from vlib.orderdom import describe as _d
+    n = 0
+    for rank, s, res in c12.fast_chunk_two_orders(repo, tier):
+        n += 1
+        desc = _d(rank)
+        lo, hi = min(s["l1"], s["l2"]), max(s["h1"], s["h2"])
+        want = {nm for nm, sym in (("O0", "p"), ("O1", "r")) if lo <= s[sym] <= hi}
+        for kind, fills in res:
+            if kind != "return":
+                rep.violation(rid, "fast-chunk|raises", f"fast chunk matching raises for {desc}")
+                continue
+            got = [f[0] for f in fills]
+            if len(set(got)) != len(got):
+                rep.violation(rid, "fast-chunk|double-fill", f"an order fills twice in one fast-mode chunk for {desc}: {got}")
+            if set(got) != want:
+                missing, extra = sorted(want - set(got)), sorted(set(got) - want)
+                rep.violation(rid, "fast-chunk|" + ("unfilled" if missing else "spurious"),
+                              f"fast-mode chunk for {desc}: " + (f"order(s) {missing} whose price lies in the chunk's range are left unfilled" if missing else f"order(s) {extra} filled outside the chunk's range"),
+                              {"ordering": desc})
+            for nm, price in fills:
+                own = s["p"] if nm == "O0" else s["r"]
+                if price != own:
+                    rep.violation(rid, "fast-chunk|price", f"order {nm} fills at {price}, not at its own price {own}, for {desc}")
+        rep.instance(rid, desc, {"ordering": desc, "fills": repr(res)} if n % 300 == 1 else None)
+    rep.floor(rid, 1000)
+
+
 # ------------------------------------------------------------------ market orders
 def check_market_orders(repo, rep):
     rid = "C02-R6b"
@@ -400,6 +433,7 @@ def run(repo: Repo, rep, tier: str):
     rep.guarded(check_jump_fix, repo, rep)
     rep.guarded(check_loop_protocol, repo, rep)
     rep.guarded(check_match_loop, repo, rep, tier)
+    rep.guarded(check_fast_chunk, repo, rep, tier)
     rep.guarded(check_market_orders, repo, rep)
     rep.guarded(check_field_writers, repo, rep)
     rep.undecided_item("exact fill minute of an order inside a fast-mode chunk (see C12)")
